@@ -599,6 +599,140 @@ func c01FromLib(tx *bt.Tx) (*refcodec.Tx, string) {
 	return t, ""
 }
 
+// c01Elements: every input and output on its own, through Input.ReadFrom,
+// Input.ReadFromExtended, Output.ReadFrom (counting reader, junk behind the
+// element, used receivers) and back through Input.Bytes / Output.Bytes.
+func c01Elements(c *mon.Ctx, ref *refcodec.Tx, tx *bt.Tx) bool {
+	ok := true
+	junk := []byte{0xfd, 0xff, 0xff, 0x01}
+	for i := range ref.Ins {
+		for _, ext := range []bool{false, true} {
+			name := "Input.ReadFrom"
+			if ext {
+				name = "Input.ReadFromExtended"
+			}
+			enc, _ := refcodec.EncodeIn(&ref.Ins[i], ext, nil)
+			r := &c01CountReader{r: bytes.NewReader(append(append([]byte{}, enc...), junk...)), chunk: 5}
+			in := &bt.Input{}
+			if i%2 == 1 { // a receiver that was used before
+				in = &bt.Input{PreviousTxOutIndex: 9, SequenceNumber: 9, PreviousTxSatoshis: 9, UnlockingScript: bscript.NewFromBytes([]byte{0x51, 0x52}), PreviousTxScript: bscript.NewFromBytes([]byte{0x53})}
+				_ = in.PreviousTxIDAdd(bytes.Repeat([]byte{0xaa}, 32))
+			}
+			var n int64
+			var err error
+			if !c.Try(name, func() {
+				if ext {
+					n, err = in.ReadFromExtended(r)
+				} else {
+					n, err = in.ReadFrom(r)
+				}
+			}) {
+				ok = false
+				continue
+			}
+			if err != nil {
+				c.Violationf("C01:rejects-valid:"+name, "%s rejects the canonical encoding of input %d: %v; input %s", name, i, err, clip(enc))
+				ok = false
+				continue
+			}
+			if n != int64(len(enc)) || r.n != int64(len(enc)) {
+				c.Violationf("C01:consumed-mismatch:"+name, "%s returned %d and took %d bytes from the reader; the element is %d bytes: %s", name, n, r.n, len(enc), clip(enc))
+				ok = false
+			}
+			got := refcodec.In{PrevHash: refcodec.Reverse(in.PreviousTxID()), Vout: in.PreviousTxOutIndex, Seq: in.SequenceNumber}
+			if in.UnlockingScript != nil {
+				got.Script = *in.UnlockingScript
+			}
+			want := ref.Ins[i]
+			bad := ""
+			switch {
+			case !bytes.Equal(got.PrevHash, want.PrevHash) || got.Vout != want.Vout:
+				bad = "outpoint"
+			case !bytes.Equal(got.Script, want.Script):
+				bad = "script"
+			case got.Seq != want.Seq:
+				bad = "sequence"
+			case ext && in.PreviousTxSatoshis != want.PrevSats:
+				bad = "prev-sats"
+			case ext && !bytes.Equal(c01Script(in.PreviousTxScript), want.PrevScript):
+				bad = "prev-script"
+			}
+			if bad != "" {
+				c.Violationf("C01:field-mismatch:"+name+":"+bad, "%s of input %d: field %s differs; input %s", name, i, bad, clip(enc))
+				ok = false
+				continue
+			}
+			var back []byte
+			std, _ := refcodec.EncodeIn(&ref.Ins[i], false, nil)
+			if c.Try("Input.Bytes", func() { back = in.Bytes(false) }) && !bytes.Equal(back, std) {
+				c.Violationf("C01:encode-mismatch:Input.Bytes", "Input.Bytes(false) after %s = %s, reference %s", name, clip(back), clip(std))
+				ok = false
+			}
+			c.Count("entry:" + name)
+		}
+		// the builder's own input serialises like the reference element; cleared = empty script
+		if i < len(tx.Inputs) && tx.Inputs[i] != nil {
+			std, _ := refcodec.EncodeIn(&ref.Ins[i], false, nil)
+			cleared := ref.Ins[i]
+			cleared.Script = nil
+			clr, _ := refcodec.EncodeIn(&cleared, false, nil)
+			var b1, b2 []byte
+			if c.Try("Input.Bytes", func() { b1, b2 = tx.Inputs[i].Bytes(false), tx.Inputs[i].Bytes(true) }) {
+				if !bytes.Equal(b1, std) || !bytes.Equal(b2, clr) {
+					c.Violationf("C01:encode-mismatch:Input.Bytes", "Input.Bytes(false/true) = %s / %s, reference %s / %s", clip(b1), clip(b2), clip(std), clip(clr))
+					ok = false
+				}
+			}
+		}
+	}
+	for i := range ref.Outs {
+		enc, _ := refcodec.EncodeOut(&ref.Outs[i], nil)
+		r := &c01CountReader{r: bytes.NewReader(append(append([]byte{}, enc...), junk...)), chunk: 3}
+		o := &bt.Output{}
+		if i%2 == 1 {
+			o = &bt.Output{Satoshis: 9, LockingScript: bscript.NewFromBytes([]byte{0x51, 0x52})}
+		}
+		var n int64
+		var err error
+		if !c.Try("Output.ReadFrom", func() { n, err = o.ReadFrom(r) }) {
+			ok = false
+			continue
+		}
+		if err != nil {
+			c.Violationf("C01:rejects-valid:Output.ReadFrom", "Output.ReadFrom rejects the canonical encoding of output %d: %v; input %s", i, err, clip(enc))
+			ok = false
+			continue
+		}
+		if n != int64(len(enc)) || r.n != int64(len(enc)) {
+			c.Violationf("C01:consumed-mismatch:Output.ReadFrom", "Output.ReadFrom returned %d and took %d bytes from the reader; the element is %d bytes: %s", n, r.n, len(enc), clip(enc))
+			ok = false
+		}
+		if o.Satoshis != ref.Outs[i].Sats || !bytes.Equal(c01Script(o.LockingScript), ref.Outs[i].Script) {
+			c.Violationf("C01:field-mismatch:Output.ReadFrom", "Output.ReadFrom of output %d: value or script differs; input %s", i, clip(enc))
+			ok = false
+			continue
+		}
+		var b1, b2, b3 []byte
+		if c.Try("Output.Bytes", func() { b1, b2 = o.Bytes(), o.BytesForSigHash() }) && (!bytes.Equal(b1, enc) || !bytes.Equal(b2, enc)) {
+			c.Violationf("C01:encode-mismatch:Output.Bytes", "Output.Bytes() / BytesForSigHash() after ReadFrom = %s / %s, reference %s", clip(b1), clip(b2), clip(enc))
+			ok = false
+		}
+		if i < len(tx.Outputs) && tx.Outputs[i] != nil && c.Try("Output.Bytes", func() { b3 = tx.Outputs[i].Bytes() }) && !bytes.Equal(b3, enc) {
+			c.Violationf("C01:encode-mismatch:Output.Bytes", "Output.Bytes() = %s, reference %s", clip(b3), clip(enc))
+			ok = false
+		}
+		c.Count("entry:Output.ReadFrom")
+	}
+	return ok
+}
+
+func c01Script(s *bscript.Script) []byte {
+	if s == nil {
+		return nil
+	}
+	return *s
+}
+
 // ---------------------------------------------------------------- readers
 
 type c01CountReader struct {
@@ -858,6 +992,32 @@ func c01JudgeShape(c *mon.Ctx, s *gen.Shape, tag string) bool {
 		} else {
 			all = false
 		}
+	}
+
+	// 1b'. the hexadecimal entry points and the element-level readers / writers
+	if lb != nil {
+		var str string
+		var fromStr *bt.Tx
+		var err error
+		if c.Try("Tx.String", func() { str = tx.String() }) && str != hex.EncodeToString(encs[0]) {
+			c.Violationf("C01:encode-mismatch:String", "String() = %s, reference %s", clip([]byte(str)), clip(encs[0]))
+			all = false
+		}
+		for i, b := range encs {
+			if c.Try("NewTxFromString", func() { fromStr, err = bt.NewTxFromString(hex.EncodeToString(b)) }) {
+				if err != nil {
+					c.Violationf("C01:rejects-valid:NewTxFromString:"+c01Fmt(i == 1), "NewTxFromString rejects a canonical %s encoding: %v; input %s", c01Fmt(i == 1), err, clip(b))
+					all = false
+				} else if !c01CheckAccepted(c, "NewTxFromString", c01Parse{fromStr, int64(len(b)), -1, nil}, canon[i], b) {
+					all = false
+				} else {
+					c.Count("entry:NewTxFromString")
+				}
+			}
+		}
+	}
+	if !c01Elements(c, ref, tx) {
+		all = false
 	}
 
 	// 1c. Clone
